@@ -305,6 +305,36 @@ impl World {
         outcome
     }
 
+    /// Several responses were drained from the tablet channel at once: every payload is parsed with
+    /// the production parser and all accepted tablets are applied by ONE `update_tablets` call on a
+    /// clone of the state, in the given order (what `ClusterWorker` does with a drained batch).
+    /// Items: (keyspace, table, payload value).
+    pub fn learn_batch_from_payloads(&mut self, items: &[(&str, &str, &[u8])]) -> Vec<PayloadOutcome> {
+        let mut outcomes = Vec::with_capacity(items.len());
+        let mut batch = Vec::new();
+        for (keyspace, table, payload) in items {
+            let mut map: HashMap<String, Bytes> = HashMap::new();
+            map.insert(
+                "tablets-routing-v1".to_owned(),
+                Bytes::copy_from_slice(payload),
+            );
+            let (outcome, raw) = Self::parse_custom_payload(&map);
+            outcomes.push(outcome);
+            if let Some(raw) = raw {
+                batch.push((
+                    TableSpec::owned((*keyspace).to_owned(), (*table).to_owned()),
+                    raw,
+                ));
+            }
+        }
+        if !batch.is_empty() {
+            let mut new_state = self.state.clone();
+            new_state.verif_update_tablets(batch);
+            self.state = new_state;
+        }
+        outcomes
+    }
+
     fn view(&self, node: &Arc<Node>, shard: Shard) -> ReplicaView {
         ReplicaView {
             host_id: node.host_id,
